@@ -1,11 +1,11 @@
 package rules
 
 import (
-	"os"
 	"fmt"
 	"go/ast"
 	"go/token"
 	"go/types"
+	"os"
 	"sort"
 	"strings"
 
@@ -1071,7 +1071,6 @@ func keysOnlyNameMapEntries(p *eng.Prog, fnName, varName string) bool {
 	}
 	return n > 0 && all
 }
-
 
 // sortedInsertHelper: a function of the module whose body looks the key up with sort.Search* in its first parameter
 // (and so inserts at the sorted position).
